@@ -209,7 +209,65 @@ def modular_stream(ctx, rng, count):
             ctx.nontrivial.add(("modular", mon, modular.spec_text(c)))
 
 
+def both_modes_stream(ctx, rng, count):
+    """One object of the class that owns an offline AND an online interpreter (`rtamt.StlDiscreteTimeSpecification`) used in
+    both modes, in either order: evaluate() and update() of a supported past-time specification on well-formed data return
+    normally, and the update() values are the offline values (C02) whichever came first (F54: one shared set_ast flag)."""
+    import rtamt
+    for _ in range(count):
+        g = F.Gen(rng, VARS, F.PAST_ONLY - {"fn"}, max_bound=3)
+        f = g.formula(rng.choice([1, 2, 3]))
+        vs = sorted(F.variables(f)) or ["a"]
+        n = rng.randint(1, 6)
+        data = F.gen_trace(rng, vs, n)
+        order = rng.choice(["eval-update", "update-eval", "update-eval-update"])
+        text = "out = " + F.to_text(f)
+        ctx.evaluations += 1
+        ctx.count("kind:both-modes/" + order)
+        rep = {"kind": "both", "spec": text, "data": data, "order": order}
+        ok, what = run_both(text, vs, data, order)
+        if not ok:
+            ctx.violations.append(Violation("StlDiscreteTimeSpecification used %s: %s: %s" % (order, what, text), rep, stream="wf/both-modes"))
+            if len(ctx.violations) >= 3:
+                return
+        else:
+            ctx.traces_validated += 1
+
+
+def run_both(text, vs, data, order):
+    import rtamt
+    n = len(next(iter(data.values())))
+    try:
+        s = rtamt.StlDiscreteTimeSpecification()
+        for v in vs:
+            s.declare_var(v, "float")
+        s.spec = text
+        s.parse()
+        ds = dict({"time": list(range(n))}, **{v: list(data[v]) for v in vs})
+        off = None
+        on = []
+        for step in order.split("-"):
+            if step == "eval":
+                off = [p[1] for p in s.evaluate(ds)]
+            else:
+                if on:
+                    s.reset()
+                on = [s.update(i, [(v, data[v][i]) for v in vs]) for i in range(n)]
+    except rtamt.RTAMTException as e:
+        return False, "RTAMTException %s" % e
+    except Exception as e:          # noqa: any other exception is the crash the property excludes
+        return False, "%s: %s" % (type(e).__name__, e)
+    if off is not None and len(off) == len(on):
+        for i, (a, b) in enumerate(zip(off, on)):
+            if a != b and not (a != a and b != b):
+                return False, "update #%d returned %r, evaluate() %r at the same sample" % (i, b, a)
+    return True, "returns normally"
+
+
 def replay(ctx, obj):
+    if obj.get("kind") == "both":
+        ok, what = run_both(obj["spec"], sorted(obj["data"]), obj["data"], obj["order"])
+        return ok, what
     if obj.get("kind") == "modular":
         from .. import modular
         c = modular.case_of_rep(obj)
@@ -229,6 +287,8 @@ def run(ctx):
     explore(ctx, ctx.subrng("wf"), ctx.budget(1500, 12000))
     if not ctx.violations:
         modular_stream(ctx, ctx.subrng("wf-mod"), ctx.budget(300, 4000))
+    if not ctx.violations:
+        both_modes_stream(ctx, ctx.subrng("wf-both"), ctx.budget(150, 1500))
     if not ctx.violations:
         try:
             from .. import dense
